@@ -539,7 +539,7 @@ Lemma step_ok i σ ms oc : Inv σ ms ->
   Inv (fst (step σ oc)) (fst (clause_op i σ ms oc (snd (step σ oc)))).
 Proof.
   intros (Hcse & Hag & Hpk).
-  destruct oc as [old new|r nx eps|id s nx|nx|v|k|id w|id|id s].
+  destruct oc as [old new|r nx eps|id s nx|nx|v|k|id w|id|id s|so sb sn].
   - (* RecordTransition *)
     cbn [step clause_op fst snd]. destruct ms as [m|].
     + destruct (ms_step m old new) as [m'|] eqn:E.
@@ -626,6 +626,9 @@ Proof.
         rewrite (ag_build_prec _ _ Hi H), word_eqb_refl. reflexivity.
       * split; [exact Hcse|split; [exact Hi|exact Hpk]].
     + split; [reflexivity|]. split; [exact Hcse|split; assumption].
+  - (* weighted_target child policy rename *)
+    cbn [clause_op step fst snd forallb okc]. rewrite word_eqb_refl. split; [reflexivity|].
+    split; [exact Hcse|split; assumption].
 Qed.
 
 Lemma inv0 : Inv st0 (Some []).
@@ -697,7 +700,7 @@ Definition synced (σ : state) : Prop :=
 
 Lemma step_synced σ oc : synced σ -> synced (fst (step σ oc)).
 Proof.
-  intros H. destruct oc as [old new|r nx eps|id s nx|nx|v|k|id w|id|id s]; cbn [step].
+  intros H. destruct oc as [old new|r nx eps|id s nx|nx|v|k|id w|id|id s|so sb sn]; cbn [step].
   - exact H.
   - cbn [fst set_pk]. intros p Hp. cbn [s_pk s_ch] in *. inversion Hp; subst. apply build_shape.
   - destruct (lookup id (s_ch σ)); cbn [fst]; [|exact H].
@@ -710,6 +713,7 @@ Proof.
   - destruct (ag_lookup id (s_ag σ)); cbn [fst]; exact H.
   - destruct (ag_lookup id (s_ag σ)) as [[st sa]|]; cbn [fst]; exact H.
   - destruct (ag_lookup id (s_ag σ)) as [[st sa]|]; cbn [fst]; exact H.
+  - exact H.
 Qed.
 
 Lemma exec_synced ops : forall σ σ', synced σ -> exec σ ops = Some σ' -> synced σ'.
